@@ -150,8 +150,17 @@ func rewriteNestedImplies(text string) string {
 	return text
 }
 
+func (c *SpecCtx) expandMacros(text string) string {
+	for i := 0; i < 5 && strings.Contains(text, "@"); i++ {
+		for name, body := range c.w().macros {
+			text = strings.ReplaceAll(text, "@"+name, "("+body+")")
+		}
+	}
+	return text
+}
+
 func (c *SpecCtx) Formula(text string) Term {
-	text = rewriteNestedImplies(strings.TrimSpace(text))
+	text = rewriteNestedImplies(strings.TrimSpace(c.expandMacros(text)))
 	if ps := splitTop(text, "<==>"); len(ps) == 2 {
 		return eq(c.Formula(ps[0]), c.Formula(ps[1]))
 	}
@@ -170,6 +179,7 @@ func (c *SpecCtx) Formula(text string) Term {
 }
 
 func (c *SpecCtx) Expr(text string) TT {
+	text = c.expandMacros(text)
 	e, err := parser.ParseExpr(text)
 	if err != nil {
 		c.failf("cannot parse %q: %v", text, err)
@@ -348,6 +358,14 @@ func (c *SpecCtx) object(obj types.Object) TT {
 			return TT{T: c.ex.strLit(constant.StringVal(o.Val())), Ty: o.Type()}
 		case constant.Float:
 			return TT{T: c.ex.fltLit(o.Val()), Ty: o.Type()}
+		}
+	case *types.Func:
+		for _, p := range c.w().prog.AllPackages() {
+			if p.Pkg == o.Pkg() {
+				if f, ok := p.Members[o.Name()].(*ssa.Function); ok {
+					return TT{T: c.ex.funcValue(f).T, Ty: o.Type()}
+				}
+			}
 		}
 	case *types.Var:
 		// package-level variable
@@ -531,6 +549,24 @@ func (c *SpecCtx) binary(e *ast.BinaryExpr) TT {
 		return TT{T: or(x.T, y.T), Ty: types.Typ[types.Bool]}
 	}
 	x, y := c.tr(e.X), c.tr(e.Y)
+	// tracked (interior / cell) pointers compared with nil
+	if (e.Op == token.EQL || e.Op == token.NEQ) && (x.T.IsZero() && x.P != nil || y.T.IsZero() && y.P != nil) {
+		p, other := x.P, y
+		if x.P == nil || !x.T.IsZero() {
+			p, other = y.P, x
+		}
+		if other.T.S != "nil_val" && other.T.S != "0" {
+			c.failf("tracked pointer compared with a non-nil value in %s", exprString(e))
+		}
+		nonnil := tTrue
+		if p.Cell == nil && p.Global == nil && !p.IsElem {
+			nonnil = not(eq(p.Base, intLit(0)))
+		}
+		if e.Op == token.EQL {
+			return TT{T: not(nonnil), Ty: types.Typ[types.Bool]}
+		}
+		return TT{T: nonnil, Ty: types.Typ[types.Bool]}
+	}
 	// nil adapts to the other operand's sort
 	x, y = c.coerceNil(x, y), c.coerceNil(y, x)
 	// untyped int literal against float
